@@ -18,7 +18,7 @@ import (
 
 // C06: no backend is used after close, closed twice, or leaked.
 
-var c06Ops = []string{"acquire", "use", "release", "reload-new-ok", "reload-same-ok", "reload-open-error", "reload-new-nokey", "reload-same-nokey", "reload-timeout-late-ok", "reload-timeout-late-err", "shutdown", "reload-timeout-late-same"}
+var c06Ops = []string{"acquire", "use", "release", "reload-new-ok", "reload-same-ok", "reload-open-error", "reload-new-nokey", "reload-same-nokey", "reload-timeout-late-ok", "reload-timeout-late-err", "shutdown", "reload-timeout-late-same", "query", "reload-new-racy-timeout"}
 
 type c06Case struct {
 	Ops    []int    `json:"ops"`    // indices into c06Ops
@@ -49,7 +49,7 @@ func c06Run(t kit.Fataler, ops []int, readerIdx []int, record bool) {
 		cs.Names = append(cs.Names, c06Ops[o])
 	}
 	fw, b0 := kit.NewFakeWorld()
-	h, err := dnsserver.NewFBDNSDBBasic(dnsserver.HandlerConfig{}, dnsserver.DBConfig{Path: "same", Driver: "fake", ReloadTimeout: c06Timeout, ValidationKey: fw.VKey}, dnsserver.CacheConfig{}, &dnsserver.DummyLogger{}, &stats.DummyStats{})
+	h, err := dnsserver.NewFBDNSDBBasic(dnsserver.HandlerConfig{}, dnsserver.DBConfig{Path: "same", Driver: "fake", ReloadTimeout: c06Timeout, ValidationKey: fw.VKey}, dnsserver.CacheConfig{Enabled: true, LRUSize: 8}, &dnsserver.DummyLogger{}, &stats.DummyStats{})
 	if err != nil {
 		kit.Fail(t, "C06", "setup-error", cs, "%v", err)
 		return
@@ -110,6 +110,15 @@ func c06Run(t kit.Fataler, ops []int, readerIdx []int, record bool) {
 			k := ri % len(live)
 			live[k].r.Close()
 			live = append(live[:k], live[k+1:]...)
+		case "query":
+			// a real query through the handler (the second identical one is a cache hit)
+			if shutdown {
+				continue
+			}
+			resp, _, qerr := kit.Ask(h, kit.Query{Name: "www.example.com.", Type: 1, Class: 1, MaxAns: 1}, kit.Client{Resolver: "192.0.2.9"})
+			if qerr != nil || resp == nil || len(resp.Answer) != 1 {
+				fail("query-failed", "query through the handler: %v %s", qerr, kit.Brief(resp))
+			}
 		case "shutdown":
 			if shutdown {
 				continue
@@ -122,7 +131,7 @@ func c06Run(t kit.Fataler, ops []int, readerIdx []int, record bool) {
 			}
 			seq++
 			var path string
-			gated := false
+			gated, racy := false, false
 			switch name {
 			case "reload-new-ok":
 				path = fmt.Sprintf("new-ok#%d", seq)
@@ -141,6 +150,11 @@ func c06Run(t kit.Fataler, ops []int, readerIdx []int, record bool) {
 			case "reload-timeout-late-same":
 				// a catch-up that overruns the timeout and then succeeds on the same backend
 				path, gated = fmt.Sprintf("block-same#%d", seq), true
+			case "reload-new-racy-timeout":
+				// a 1 ns timeout against a backend that opens at once: the timeout may fire
+				// before the reload goroutine has even started, or just as the open completes;
+				// whichever result comes back is taken as it is
+				path, racy = fmt.Sprintf("new-ok#%d", seq), true
 			}
 			if len(live) > 0 {
 				sawReloadWithReader = true
@@ -148,9 +162,12 @@ func c06Run(t kit.Fataler, ops []int, readerIdx []int, record bool) {
 			if name != "reload-new-ok" && name != "reload-same-ok" {
 				sawFailing = true
 			}
-			if gated {
+			switch {
+			case racy:
+				h.VerifSetReloadTimeout(time.Nanosecond)
+			case gated:
 				h.VerifSetReloadTimeout(c06Timeout)
-			} else {
+			default:
 				h.VerifSetReloadTimeout(c06LongTimeout)
 			}
 			rerr := h.Reload(*dnsserver.NewFullReloadSignal(path))
@@ -159,6 +176,13 @@ func c06Run(t kit.Fataler, ops []int, readerIdx []int, record bool) {
 			}
 			if gated {
 				blocked = append(blocked, path)
+			}
+			if racy && rerr != nil {
+				// timed out: the backend may still be opened late; it must then be closed again
+				// (checked at quiescence), nothing else changes
+				executed = append(executed, name+"(timed out)")
+				check(name)
+				continue
 			}
 			switch {
 			case rerr == nil && strings.HasPrefix(path, "new-ok"):
@@ -288,7 +312,7 @@ func TestC06(t *testing.T) {
 		rdr := make([]int, k)
 		nt := 0
 		for i := range ops {
-			ops[i] = rapid.SampledFrom([]int{0, 0, 0, 1, 1, 2, 2, 3, 3, 4, 4, 5, 6, 7, 8, 9, 10, 11}).Draw(t, "op")
+			ops[i] = rapid.SampledFrom([]int{0, 0, 0, 1, 1, 2, 2, 3, 3, 4, 4, 5, 6, 7, 8, 9, 10, 11, 12, 12, 13, 13}).Draw(t, "op")
 			rdr[i] = rapid.IntRange(0, 2).Draw(t, "reader")
 			if ops[i] == 8 || ops[i] == 9 || ops[i] == 11 {
 				nt++
